@@ -255,6 +255,12 @@ class A:
     def ret(fn=None): return Anchor('ret', fn=fn)
     @staticmethod
     def loop_body(k, fn=None): return Anchor('loop_body', k=k, fn=fn)
+    @staticmethod
+    def loop_end(k, fn=None): return Anchor('loop_end', k=k, fn=fn)
+    @staticmethod
+    def loop_after(k, fn=None): return Anchor('loop_after', k=k, fn=fn)
+    @staticmethod
+    def next_tok(s, tok, nth=None): return Anchor('next_tok', s=s, tok=tok, nth=nth)
 
 
 def _fn_range(src, fn):
@@ -330,6 +336,12 @@ def resolve(src, anchor):
         if nth > len(occ):
             raise AnchorLost('anchor %r: no occurrence #%d' % (s, nth))
         return ('rg',) + occ[nth - 1]
+    if kd == 'next_tok':
+        r = resolve(src, Anchor('text', s=kw['s'], nth=kw['nth']))
+        for j in range(r[2] + 1, len(st)):
+            if st[j] == kw['tok']:
+                return ('rg', j, j)
+        raise AnchorLost('no %r after %r' % (kw['tok'], kw['s']))
     h, bo, bc = _fn_range(src, kw.get('fn'))
     if kd == 'sig':
         return ('pt', bo, 'before')
@@ -347,6 +359,16 @@ def resolve(src, anchor):
         if kw['k'] >= len(ls):
             raise AnchorLost('loop %d: function has %d loops' % (kw['k'], len(ls)))
         return ('pt', ls[kw['k']], 'after')
+    if kd == 'loop_end':
+        ls = _loops(src, bo, bc)
+        if kw['k'] >= len(ls):
+            raise AnchorLost('loop %d: function has %d loops' % (kw['k'], len(ls)))
+        return ('pt', match_close(st, ls[kw['k']]), 'before')
+    if kd == 'loop_after':
+        ls = _loops(src, bo, bc)
+        if kw['k'] >= len(ls):
+            raise AnchorLost('loop %d: function has %d loops' % (kw['k'], len(ls)))
+        return ('pt', match_close(st, ls[kw['k']]), 'after')
     if kd == 'ret':
         # tokens after `->` (last one at paren depth 0 before the body) up to `{` / where
         j, pd, arrow = h, 0, None
